@@ -206,6 +206,16 @@ func (c C12) Run(t *tape.Tape, opt core.RunOpt) (res core.Result) {
 		for k := 0; k < 2+t.Draw(2); k++ {
 			pool = append(pool, &workload.Request{Src: workload.LabelRequests[t.Draw(len(workload.LabelRequests))]})
 		}
+	} else if strat == workload.StratReflect && t.Bool(1, 10) {
+		// a union-typed field that yields a value of an unnamed Go type (an
+		// application mistake): what it is answered depends on which members are
+		// bound, so its response is not compared; every other request, and the
+		// race and deadlock oracles, are as always
+		pool = pool[:0]
+		for k := 0; k < 3+t.Draw(3); k++ {
+			pool = append(pool, &workload.Request{Src: workload.OddRequests[t.Draw(len(workload.OddRequests))]})
+		}
+		res.Count("probe_union_field_with_value_of_unnamed_go_type", 1)
 	} else if strat == workload.StratReflect && t.Bool(1, 8) {
 		// two Go structs behind one GraphQL type, whichever is seen first. The
 		// library looks a Go field up by name in the value at hand, so plain
@@ -393,6 +403,9 @@ func (c C12) Run(t *tape.Tape, opt core.RunOpt) (res core.Result) {
 	}
 	for ti := range results {
 		for _, sl := range results[ti] {
+			if strings.Contains(pool[sl.req].Src, "odd {") {
+				continue // see OddRequests
+			}
 			if sl.resp != base[sl.req] {
 				res.Violate("C12", "response_differs_from_run_alone",
 					fmt.Sprintf("task %d, request %d (%s strategy): concurrent response differs from the response of the same request alone on a cold root:\nconcurrent: %s\nalone:      %s\nrequest:\n%s",
